@@ -54,7 +54,7 @@ def gen(rnd):
         if 0 < sum(n) <= maxo + 1 and rnd.random() < 0.6:
             m = rng.integers(-2, 3, size=(d, d)).astype(float)
             terms[n] = (m + m.T) if herm else m
-    mode = rnd.choice(["indices", "vectors", "implicit", "implicit"]) if N >= 2 else "indices"
+    mode = rnd.choice(["indices", "vectors", "implicit", "implicit", "blocked-series"]) if N >= 2 else "indices"
     fd = tuple(b for b in range(N - (1 if mode == "implicit" else 0)) if rnd.random() < 0.3)
     reqs = []
     for _ in range(rnd.randint(2, 4)):
@@ -94,6 +94,16 @@ def build(P, log, garbage_outside=None, raise_outside=None):
         t = P["terms"].get(n)
         if t is None: return zero
         return sparse.csr_array(t) if P["mode"] == "implicit" else t
+    if P["mode"] == "blocked-series":
+        # a user-made series of pre-separated blocks: the library and the caller share one series (and its cache)
+        offs = np.cumsum([0] + P["sizes"])
+        def evb(i, j, *n):
+            n = tuple(int(x) for x in n); log.append(("block", int(i), int(j)) + n)
+            full = ev(*n); log.pop()                        # (the scalar logger is reused for the values; its own log entry is dropped)
+            if full is zero: return zero
+            blk = np.asarray(full)[offs[i]:offs[i + 1], offs[j]:offs[j + 1]]
+            return zero if (any(n) or i != j) and not np.any(blk) else blk
+        return BlockSeries(eval=evb, shape=(P["N"], P["N"]), n_infinite=k, name="H"), dict(hermitian=P["herm"], fully_diagonalize=P["fd"])
     H = BlockSeries(eval=ev, shape=(), n_infinite=k, name="H")
     eye = np.eye(d); off = np.cumsum([0] + P["sizes"]); vecs = [eye[:, off[b]:off[b + 1]] for b in range(P["N"])]
     kw = dict(hermitian=P["herm"], fully_diagonalize=P["fd"])
@@ -115,6 +125,10 @@ def run(P, **variant):
     log = []; H, kw = build(P, log, **variant)
     Ht, U, Ui = block_diagonalize(H, **kw); S = {"H_tilde": Ht, "U": U, "U_inv": Ui}
     deflog = list(log); per = []; vals = []
+    if P["mode"] == "blocked-series":
+        # the caller reads some terms of its own series between the definition and the requests: they must not be evaluated a second time later
+        top = P["reqs"][0]["orders"][0]
+        for (i, j) in [(0, 0), (P["N"] - 1, 0)]: H[(i, j) + tuple(top)]
     nb = P["N"] - (1 if P["mode"] == "implicit" else 0)
     if P["mode"] == "boson":
         for r in P["reqs"]:
@@ -128,6 +142,9 @@ def run(P, **variant):
                 if isinstance(res, np.ma.MaskedArray): out += [dense(x) if not m else None for x, m in zip(res.data.reshape(-1), np.ma.getmaskarray(res).reshape(-1))]
                 else: out.append(dense(res))
         per.append(log[before:]); vals.append(out)
+    if P["mode"] == "blocked-series":      # entries ("block", i, j, *n): the order part for the cone checks, the whole entry for at-most-once
+        strip = lambda e: tuple(e[3:])
+        return [strip(e) for e in deflog], [[strip(e) for e in lg] for lg in per], vals, log
     return deflog, per, vals, log
 
 def same(a, b):
